@@ -1117,7 +1117,9 @@ func (sc *serverConn) handleFrame(strm *Stream, fr *FrameHeader) error {
 			return NewGoAwayError(ProtocolError, "window increment of 0")
 		}
 
-		if atomic.AddInt64(&strm.window, win) >= 1<<31-1 {
+		// 2^31-1 itself is a legal window; only going past it is an error
+		// (RFC 7540 6.9.1).
+		if atomic.AddInt64(&strm.window, win) > 1<<31-1 {
 			return NewResetStreamError(FlowControlError, "window is above limits")
 		}
 	default:
